@@ -230,6 +230,40 @@ def route_b(chk, rng, binp):
                           {"method": method, "url": url, "headers": [(a, b.decode("latin-1")) for a, b in built]}, expected=auth, observed=wantA)
 
 
+def mac_stage(chk, binp, rng, n):
+    """three implementations of the MAC on the same (key text, message): the agent's compute_signature (hmac-sha256 + hex
+    crates), the Lean model's own SHA-256/HMAC, and hashlib"""
+    import hashlib
+    import hmac as pyhmac
+    cases = [("4A404E635266556A586E3272357538782F413F4428472B4B6250645367566B59", b"Hello world"), ("", b""), ("00", b""), ("zz", b"x"), ("abc", b"x")]
+    for _ in range(n):
+        kl = rng.pick([0, 1, 16, 32, 32, 32, 63, 64, 65, 100, 200])
+        key = bytes(rng.below(256) for _ in range(kl)).hex()
+        if rng.chance(1, 3):
+            key = key.upper()
+        ml = rng.pick([0, 1, 54, 55, 56, 57, 63, 64, 65, 119, 120, 121, 128, rng.below(700), rng.below(5000)])
+        cases.append((key, bytes(rng.below(256) for _ in range(ml))))
+    lines = ["mac %s %s" % (hx(k), hx(m) if m else "-") for k, m in cases]
+    sd = vlib.scratch_dir("c04m")
+    vlib.run_harness(binp, "canon", "\n".join(lines) + "\n", env={"VERIF_OUT": sd + "/o.txt"}, cwd=sd)
+    impl = open(sd + "/o.txt").read().split("\n")[:-1]
+    shutil.rmtree(sd, ignore_errors=True)
+    model = vlib.run_driver(["h" + l for l in lines])
+    for (k, m), mo, im in zip(cases, model, impl):
+        chk.count("mac_cases")
+        try:
+            ref = pyhmac.new(bytes.fromhex(k), m, hashlib.sha256).hexdigest()
+        except ValueError:
+            ref = "bad-key"
+        if mo != im:
+            chk.disagreement("mac-lean-vs-agent", {"key_text": k, "message_hex": m.hex()}, mo, im)
+        if im != ref:
+            chk.violation("compute_signature is not HMAC-SHA256 of the message under the hex-decoded key", {"key_text": k, "message_hex": m.hex()},
+                          expected=ref, observed=im)
+        if ref == "bad-key":
+            chk.count("mac_bad_key")
+
+
 def e2e_oracle_factory(pending):
     def oracle(chk, o, m):
         case = o["case"]
@@ -272,6 +306,7 @@ def run(chk):
         return
     function_level(chk, rng, binp)
     route_b(chk, rng, binp)
+    mac_stage(chk, binp, rng, 300 if chk.tier == "quick" else 20000)
     stack = e2e.Stack(binp)
     pending = []
     try:
@@ -314,4 +349,4 @@ def run(chk):
                             "pair / header line removed (coverage oracle); route B through build_request under a known key; e2e: the mock "
                             "host's received bytes are re-canonicalised by the Lean model and the MAC recomputed with hashlib")
     chk.assumptions += ["the host's verifier canonicalises exactly like the agent (same algorithm applied to the received bytes)",
-                        "SHA-256/HMAC: hashlib is the reference; the Rust hmac-sha256 crate is cross-checked on every signed request"]
+                        "SHA-256/HMAC: the agent's compute_signature, the Lean model's own SHA-256/HMAC and hashlib are compared on random keys/messages (block-boundary lengths, keys longer than a block, non-hex keys) on every run; MACs on the wire are then checked with hashlib"]
